@@ -1,5 +1,7 @@
 (* C09 driver.  argv[1] = case file, optional argv[2] = the implementation's output for the same cases.
-   Case line:  <P|C><G|U><S|N> <sentinel> <seq> <seq> ...   with <seq> = "-" (empty) or "k,k,k".
+   Case line:  <P|C><G|U|V><S|N> <sentinel> <seq> <seq> ...   with <seq> = "-" (empty) or "k,k,k".
+   V = unguarded class driven outside its key precondition (keys may exceed the sentinel; the caller consults the tree
+   only while some current key beats the sentinel): model = run_gN, checker = check_gN.
    Output line: "<model trace>" and, when argv[2] is given, " ; chk=<ok|BAD|PARSE>" = verdict of the
    Coq-extracted trace checker on the implementation's reported sequence of min_source() values. *)
 open C09_model
@@ -31,7 +33,9 @@ let () =
       | vs :: sent :: seqs when String.length vs = 3 ->
         let v = parse_variant vs in
         let seqs = List.map parse_seq seqs in
-        let tr = run_N v (n_of_int (int_of_string sent)) seqs in
+        let general = (vs.[1] = 'V') in
+        let sentn = n_of_int (int_of_string sent) in
+        let tr = if general then run_gN v sentn seqs else run_N v sentn seqs in
         let b = Buffer.create 64 in
         Buffer.add_string b (String.concat " " (List.map show_src tr));
         (match il with
@@ -40,7 +44,7 @@ let () =
            let verdict =
              try
                let t = List.map parse_src (List.filter (fun s -> s <> "") (String.split_on_char ' ' l)) in
-               if check_N v seqs t then "ok" else "BAD"
+               if (if general then check_gN v sentn seqs t else check_N v seqs t) then "ok" else "BAD"
              with _ -> "PARSE" in
            Buffer.add_string b (" ; chk=" ^ verdict));
         print_endline (Buffer.contents b)
